@@ -832,6 +832,13 @@ class Dict(dict, base.Symbolic, pg_typing.CustomTyping):
     self.rebind(
         updates, raise_on_no_change=False, skip_notification=True)
 
+  def __ior__(self, other) -> 'Dict':
+    """In-place union, which goes through `update`."""
+    # NOTE: `dict.__ior__` would insert the items directly, bypassing the
+    # sealed flag, the value spec and the parent/path of the new children.
+    self.update(other)
+    return self
+
   def sym_jsonify(
       self,
       hide_frozen: bool = True,
